@@ -10,7 +10,7 @@
 //!   * conflicting requirements (same export, different function type; an explicit import and an implicit one of the
 //!     same name) are an EncodeError - never a panic.
 //! Universe: packages PA (a:b/c@0.2.0 {f}), PB (a:b/c@0.2.1 {f,g}), PC (a:b/c@0.3.0 {f}, x: func), PD (a:b/c@0.2.0 {f: F2}),
-//! PE (a:b/c@0.2.1 {g}, x: func);
+//! PE (a:b/c@0.2.1 {g}, x: func), PF (a:b/c@0.21.0 {f,g}: another track, textually prefixed by `a:b/c@0.2`);
 //! up to MAX instantiations of distinct packages in every order; explicit import none | a:b/c@0.2.1 {f,g} | a:b/c@0.2.0 {f}
 //! | y: func (y optionally passed as PC's argument x).
 //! Exit 0 = agreement, 1 = a disagreeing composition is printed.   usage: c03_interface [max_instantiations]
@@ -48,6 +48,8 @@ fn universe() -> Vec<(&'static str, Vec<(&'static str, Vec<(&'static str, u8)>)>
         ("t:pc", vec![("a:b/c@0.3.0", vec![("f", 1)])], vec!["x"]),
         ("t:pd", vec![("a:b/c@0.2.0", vec![("f", 2)])], vec![]),
         ("t:pe", vec![("a:b/c@0.2.1", vec![("g", 1)])], vec!["x"]),
+        // a different track whose name has another track's key as a textual prefix (0.2 / 0.21)
+        ("t:pf", vec![("a:b/c@0.21.0", vec![("f", 1), ("g", 1)])], vec![]),
     ]
 }
 
@@ -114,7 +116,7 @@ fn main() {
                         let inst = g.instantiate(pid);
                         insts.push((*pi, inst));
                         let run = g.alias_instance_export(inst, "run").unwrap();
-                        let name = format!("run-{}", ["a", "b", "c", "d", "e"][*pi]);
+                        let name = format!("run-{}", ["a", "b", "c", "d", "e", "f"][*pi]);
                         g.export(run, &name).unwrap();
                         designated.insert(name);
                         let _ = k;
